@@ -658,8 +658,11 @@ def check_spellings(case, R):
                                     for arr in (P, soma):
                                         if isinstance(arr, np.ndarray) and arr.flags.writeable:
                                             arr[...] = 0
-                                    R.check(build.tags_xyz(t) == before_xyz, "tree-aliases-callers-array", lambda: f"{what}: overwriting the caller's point array changed the tree's coordinates",
-                                            f"spelling:cuntz:{sp}:{cont}:aliases-input")
+                                    # NOT a violation: the statement speaks of the tree that is returned (it did contain every input point, judged
+                                    # above); whether it keeps a view of the caller's array is left open - an independently written behaviour-
+                                    # preserving rewrite (seeded/C17-n2) does. Recorded as a diagnostic only.
+                                    if build.tags_xyz(t) != before_xyz:
+                                        R.note("diagnostic: the returned tree shares storage with the caller's point array")
                             if bf == 0:
                                 for sp in SPELLINGS_MST:
                                     P, soma = inputs(cont, mode)
